@@ -31,6 +31,11 @@ Operator descriptors (``domain`` is a space descriptor of vlib.build)::
     {"kind": "pso", "blocks": [[od | null, ...], ...]}   (domain: pspace)
     {"kind": "reduction", "ops": [od, ...]}              (domain: pspace)
     {"kind": "broadcast", "ops": [od, ...]}
+    {"kind": "pso_square", "blocks": [[od, od], [od, od]]}  on X x X
+    {"kind": "pso_cut", "svals": [...], "seed": 7}   blocks of one matrix
+                                  with prescribed singular values, X = rn(n)
+    {"kind": "partial" | "laplacian" | "sqmatrix" | "sum" | "comp", ...}
+                                  same-space operators
 
 Functional descriptors::
 
@@ -214,6 +219,20 @@ def build_operator(od, domain):
             raise HarnessError('pso_square needs a power-space domain')
         rows = [[None if o is None else build_operator(o, domain[0])
                  for o in row] for row in od['blocks']]
+        return odl.ProductSpaceOperator(rows, domain=domain, range=domain)
+    if kind == 'pso_cut':
+        # (2n x 2n) matrix U diag(s) V^T with prescribed singular values,
+        # cut into four n x n blocks: a full block operator on X x X
+        # (X = rn(n)) whose conditioning is known
+        if not isinstance(domain, ProductSpace) or \
+                not domain.is_power_space or len(domain) != 2 or \
+                isinstance(domain[0], ProductSpace) or domain[0].ndim != 1:
+            raise HarnessError('pso_cut needs a domain rn(n) x rn(n)')
+        n = domain[0].size
+        M = matrix_from_svals(2 * n, 2 * n, od['svals'], od['seed'])
+        rows = [[odl.MatrixOperator(M[i * n:(i + 1) * n, j * n:(j + 1) * n],
+                                    domain=domain[0], range=domain[0])
+                 for j in range(2)] for i in range(2)]
         return odl.ProductSpaceOperator(rows, domain=domain, range=domain)
     if kind == 'broadcast':
         return odl.BroadcastOperator(*[build_operator(o, domain)
@@ -1078,7 +1097,7 @@ def range_class(od, dom):
         m = len(od['data']) if 'data' in od else int(od['m'])
         return {'t': 'leaf', 'n': m, 'ndim': 1, 'kind': 'tensor'}
     if kind in ('identity', 'scaling', 'multiply', 'partial', 'laplacian',
-                'sqmatrix', 'sum', 'comp', 'pso_square'):
+                'sqmatrix', 'sum', 'comp', 'pso_square', 'pso_cut'):
         return dom
     if kind == 'gradient':
         return {'t': 'power', 'k': dom['ndim'], 'base': dom}
@@ -1179,7 +1198,7 @@ def square_block_op_st(draw, base_sd):
 def op_shape_stratum(od):
     """'L=stencil-square' / 'L=block-square' / None for an operator."""
     k = od['kind']
-    if k == 'pso_square':
+    if k in ('pso_square', 'pso_cut'):
         return 'L=block-square'
     if k in ('partial', 'laplacian'):
         return 'L=stencil-square'
